@@ -4,6 +4,8 @@ package c01
 import (
 	"math/rand"
 	"time"
+
+	storetypes "github.com/cosmos/cosmos-sdk/store/types"
 )
 
 var cache int
@@ -19,3 +21,31 @@ func Sources(m map[string]int) int {
 	cache = s
 	return int(t) + rand.Intn(10) + s
 }
+
+// --- out-of-band state held by a module object (positive controls for A6.keeper-mutation) ---
+
+type tracker struct{ pending bool }
+
+// Keeper is a long-lived module object by structure: it holds a store key.
+type Keeper struct {
+	key storetypes.StoreKey
+	t   *tracker
+	m   map[uint64]bool
+}
+
+func (t *tracker) set() { t.pending = true }
+
+// MutatesHeld writes through a pointer the (by-value) keeper holds.
+func (k Keeper) MutatesHeld() { k.t.pending = true }
+
+// MutatesMap updates a map the keeper holds.
+func (k Keeper) MutatesMap(id uint64) { k.m[id] = true }
+
+// MutatesViaHelper hands the held pointer to a method that writes through it.
+func (k Keeper) MutatesViaHelper() { k.t.set() }
+
+// MutatesField writes a field through a pointer receiver.
+func (k *Keeper) MutatesField() { k.t = nil }
+
+// LocalCopyOnly changes only its own copy of the keeper: not a finding.
+func (k Keeper) LocalCopyOnly() Keeper { k.t = nil; return k }
